@@ -66,7 +66,9 @@ type lfsServer struct {
 	answerLog        []string          // `transfer` of the answers to upload batches since the harness last cleared it ("-" = member left out)
 	offeredHist      map[string]string // oid -> answerLog, comma-joined, up to and including the answer that offered its upload action
 	availTus         bool
-	noAction         map[string]bool   // oid -> download batch entries for it carry neither actions nor an error
+	noAction         map[string]bool // oid -> download batch entries for it carry neither actions nor an error
+	movedTo          string          // "" or a path prefix: POST and PUT requests outside it are answered 307 to the same path below it
+	redirected       int
 	failOnce         map[string]int    // oid -> status with which the storage refuses the FIRST request for the object (401/403: the offered token is not valid yet, or no longer)
 	offeredAs        map[string]string // oid -> the transfer the latest batch response offering its upload action named
 }
@@ -136,6 +138,27 @@ func (s *lfsServer) handle(w http.ResponseWriter, r *http.Request) {
 	body, _ := io.ReadAll(r.Body)
 	s.mu.Lock()
 	defer s.mu.Unlock()
+	// a front end that hands every POST and PUT over to another location (a renamed repository, a storage bucket):
+	// the request that arrives THERE is the one that is judged — method, body and headers as the API prescribes
+	if s.movedTo != "" {
+		if !strings.HasPrefix(r.URL.Path, s.movedTo) {
+			if r.Method == "POST" || r.Method == "PUT" {
+				loc := s.movedTo + r.URL.Path
+				if r.URL.RawQuery != "" {
+					loc += "?" + r.URL.RawQuery
+				}
+				w.Header().Set("Location", loc)
+				w.WriteHeader(307)
+				s.redirected++
+				return
+			}
+		} else {
+			r.URL.Path = strings.TrimPrefix(r.URL.Path, s.movedTo)
+			if r.URL.RawPath != "" {
+				r.URL.RawPath = strings.TrimPrefix(r.URL.RawPath, s.movedTo)
+			}
+		}
+	}
 	p := r.URL.Path
 	kindOf := ""
 	jsonOut := func(code int, v interface{}) {
